@@ -1,11 +1,15 @@
 #!/bin/bash
 # tools/seedtest.sh <ID> [patch] [tier]  - run ./check <ID> against a scratch worktree of /repo with a seeded change applied.
-# Expected outcome: exit 1 with a VIOLATION line. The worktree is removed afterwards.
+# Expected outcome: exit 1 with a VIOLATION line. Evidence/replays/build of the run go to a scratch dir; the worktree is removed.
 set -u
 ID=$1; PATCH=${2:-/verif/seeded/$ID/patch.diff}; TIER=${3:-quick}
 WT=$(mktemp -d /tmp/mut_${ID}_XXXX)
-git -C /repo worktree add -q --detach "$WT" HEAD || exit 2
-trap 'git -C /repo worktree remove --force "$WT" >/dev/null 2>&1' EXIT
-git -C "$WT" apply "$PATCH" || { echo "patch does not apply"; exit 2; }
-cd /verif && VERIF_REPO="$WT" ./check "$ID" --tier "$TIER" 2>&1 | grep -E "VIOLATION|KNOWN-FINDING|^OK|TOOL-FAILURE|signature|MODEL-DRIFT" | cut -c1-300
-exit ${PIPESTATUS[0]}
+git -C /repo worktree add -q --detach "$WT/wt" HEAD || exit 2
+trap 'git -C /repo worktree remove --force "$WT/wt" >/dev/null 2>&1; rm -rf "$WT"' EXIT
+git -C "$WT/wt" apply --3way "$PATCH" 2>/dev/null || git -C "$WT/wt" apply "$PATCH" || (cd "$WT/wt" && patch -p1 -s < "$PATCH") || { echo "patch does not apply"; exit 2; }
+mkdir -p "$WT/ev" "$WT/rp" "$WT/build"
+cd /verif && VERIF_REPO="$WT/wt" VERIF_EVIDENCE_DIR="$WT/ev" VERIF_REPLAYS_DIR="$WT/rp" VERIF_BUILD_DIR="$WT/build" ./check "$ID" --tier "$TIER" > "$WT/log" 2>&1
+rc=$?
+grep -E "VIOLATION|KNOWN-FINDING|^OK|TOOL-FAILURE|signature|MODEL-DRIFT" "$WT/log" | cut -c1-260 | head -12
+echo "seedtest $ID rc=$rc"
+exit $rc
